@@ -17,7 +17,7 @@ static int is_readonly_ptr(const void *p) {
     if (!maps) {
         FILE *f = fopen("/proc/self/maps", "r");
         size_t cap = 1 << 20, n = 0;
-        maps = malloc(cap);
+        maps = hmalloc(cap);
         if (f) { n = fread(maps, 1, cap - 1, f); fclose(f); }
         maps[n] = 0;
     }
@@ -66,6 +66,42 @@ static void op_tagsweep(char **tok, int n) {
 }
 
 #include "ops_gen.inc"
+#include <sys/mman.h>
+
+static int dispatch_all(char **tok, int n) {
+    if (!strcmp(tok[0], "tagname")) { op_tagname(tok, n); return 1; }
+    if (!strcmp(tok[0], "tagsweep")) { op_tagsweep(tok, n); return 1; }
+    return dispatch_more(tok, n);
+}
+
+/* alloc <k|none> <0|1> <env> <op...>: run one op with the allocation ledger armed.
+ *   k    : index of the library allocation request that fails (none: no failure); second field 1: every request from k on fails
+ *   env  : heap fill pattern for fresh library blocks (-1: none)
+ * Output: the op's own line, then " || live=<blocks still allocated> bad=<invalid frees> reqs=<requests> faults=<failed> trace=<events>" */
+static void op_alloc(char **tok, int n) {
+    if (n < 5) { printf("bad-op\n"); return; }
+    long k = strcmp(tok[1], "none") ? atol(tok[1]) : -1;
+    int from_on = atoi(tok[2]);
+    int fillp = atoi(tok[3]);
+    fflush(stdout);
+    int saved = dup(1);
+    int fd = memfd_create("lwvcap", 0);
+    dup2(fd, 1);
+    lwv_reset_ledger(); lwv_set_fill(fillp); lwv_arm(k, from_on);
+    int ok = dispatch_all(tok + 4, n - 4);
+    lwv_disarm(); lwv_set_fill(-1);
+    fflush(stdout);
+    dup2(saved, 1); close(saved);
+    off_t sz = lseek(fd, 0, SEEK_END);
+    char *cap = hmalloc((size_t) sz + 1);
+    lseek(fd, 0, SEEK_SET);
+    ssize_t got = read(fd, cap, (size_t) sz); if (got < 0) got = 0;
+    cap[got] = 0; close(fd);
+    while (got > 0 && (cap[got - 1] == '\n')) cap[--got] = 0;
+    for (char *c = cap; *c; c++) if (*c == '\n') *c = '~';
+    printf("%s || live=%ld bad=%ld reqs=%ld faults=%ld trace=%s\n", ok ? cap : "bad-op", lwv_live_blocks(), lwv_bad_frees(), lwv_alloc_requests(), lwv_faults_fired(), lwv_trace());
+    hfree(cap);
+}
 
 int main(void) {
     char *line = NULL; size_t cap = 0; ssize_t len;
@@ -76,9 +112,8 @@ int main(void) {
         int n = 0;
         for (char *p = strtok(line, " "); p && n < (1 << 16); p = strtok(NULL, " ")) tok[n++] = p;
         if (n == 0) { printf("empty\n"); continue; }
-        if (!strcmp(tok[0], "tagname")) op_tagname(tok, n);
-        else if (!strcmp(tok[0], "tagsweep")) op_tagsweep(tok, n);
-        else if (!dispatch_more(tok, n)) printf("bad-op\n");
+        if (!strcmp(tok[0], "alloc")) op_alloc(tok, n);
+        else if (!dispatch_all(tok, n)) printf("bad-op\n");
         fflush(stdout);
     }
     return 0;
